@@ -95,6 +95,7 @@ type v20World struct {
 	// further ways setupConfigurationComponents fails before service.New: the configuration does not pass xconfmap.Validate
 	// (pipeline references an exporter that is not configured) / does not unmarshal (unknown top-level key)
 	cfgInvalid, cfgBadKey atomic.Bool
+	forceRecoverable atomic.Bool // script token rfatal: the FatalError report is preceded by a RecoverableError report
 	dry atomic.Bool // Collector.DryRun in progress: hooks do not gate, Factories() does not open a new generation
 
 	runDone chan struct{}
@@ -465,10 +466,18 @@ func (w *v20World) reportFatal(gen int, name string) bool {
 	if host == nil {
 		return false
 	}
-	w.logf("fatal %d %s", gen, name)
+	w.mu.Lock()
+	recoverableFirst := len(w.events)%2 == 0 || w.forceRecoverable.Load() // deterministic per history, consumes no random draw
+	w.mu.Unlock()
+	w.logf("fatal %d %s recoverable-first=%v", gen, name, recoverableFirst)
 	w.fatalSent.Add(1)
 	go func() {
 		defer func() { _ = recover() }()
+		if recoverableFirst {
+			// in about half of the histories: the component first reports a RecoverableError, then the FatalError (the status FSM must
+			// let Recoverable -> Fatal through, or the fatal error never reaches the collector)
+			componentstatus.ReportStatus(host, componentstatus.NewRecoverableErrorEvent(errors.New("verif: recoverable component error")))
+		}
 		componentstatus.ReportStatus(host, componentstatus.NewFatalErrorEvent(errors.New("verif: fatal component error")))
 		w.fatalBack.Add(1)
 	}()
@@ -631,6 +640,7 @@ type v20Det struct {
 	// through os/signal and the registrations Run made; dg = DisableGracefulShutdown
 	osSig       bool
 	dryRuns     int
+	fatalStuck  bool // the history ended in the select, Run not returned, although a component's FatalError report was outstanding
 	sigStuck    bool // the history ended with Run not returned although a registered signal had entered the channel
 	dg          bool
 	sigIgnored  int    // delivered while signalsChannel was not registered for them
@@ -707,6 +717,11 @@ func (d *v20Det) settle(expectRunning bool) {
 			return
 		case <-tick.C:
 			if expectRunning && w.col.GetState() == StateRunning && d.ready() == 0 {
+				if d.osSig && !v20RunParkedInSelect() {
+					// StateRunning is stored before Run calls signal.Notify and enters the select: wait until the Run goroutine
+					// really is parked in the select, so that no signal is delivered inside that window
+					continue
+				}
 				d.at = "select"
 				return
 			}
@@ -724,6 +739,12 @@ func (d *v20Det) external(kind int) {
 		return
 	}
 	if kind == 10 {
+		return
+	}
+	if kind == 12 { // rfatal: a component reports RecoverableError and then FatalError
+		w.forceRecoverable.Store(true)
+		d.external(9)
+		w.forceRecoverable.Store(false)
 		return
 	}
 	if kind == 11 { // Collector.DryRun on a collector whose Run has not been called: validates, must change nothing
@@ -927,7 +948,7 @@ func (d *v20Det) afterSelect() {
 	d.emit("pick "+branch, true)
 }
 
-var v20ExtKinds = map[string]int{"shutdown": 0, "shutdownN": 1, "hup": 3, "term": 4, "watch": 5, "watcherr": 6, "async": 7, "cancel": 8, "fatal": 9, "int": 10, "dryrun": 11}
+var v20ExtKinds = map[string]int{"shutdown": 0, "shutdownN": 1, "hup": 3, "term": 4, "watch": 5, "watcherr": 6, "async": 7, "cancel": 8, "fatal": 9, "int": 10, "dryrun": 11, "rfatal": 12}
 
 func (d *v20Det) v20FatalEnabled() bool { return true }
 
@@ -1116,6 +1137,7 @@ func (d *v20Det) runCase(budget int, corpus []string) {
 		w.logf("wedged")
 		d.lostWatchErr = d.pendWatchErr > 0
 		d.sigStuck = d.osSig && len(d.sigs) > 0
+		d.fatalStuck = d.pendFatal > 0 && d.at == "timeout" && w.col.GetState() == StateRunning
 	}
 }
 
@@ -1139,6 +1161,9 @@ func TestVerifC20RunLoop(t *testing.T) {
 		{"go", "go", "watch", "watcherr", "go"},
 		// the same while a reload is in progress (SIGHUP taken, old service shutting down)
 		{"go", "go", "go", "hup", "go", "watch", "watch", "watcherr", "go"},
+		// round-9 seed 2: a component that had reported a RecoverableError reports a FatalError while the collector idles in
+		// the select: the status FSM must let the transition through, the error must reach the select and stop the collector
+		{"go", "go", "go", "rfatal", "go", "go"},
 	}
 	timeouts := 0
 	for _, c := range vCases(n) {
@@ -1173,6 +1198,8 @@ func TestVerifC20RunLoop(t *testing.T) {
 				out.Linef("viol sig=C20/runloop/watch-error-notification-lost state=%s: a provider sent an error notification, the run loop never acted on it (Run has not returned)", w.col.GetState())
 			} else if w.fatalSent.Load() > w.fatalBack.Load() {
 				out.Linef("viol sig=C20/runloop/run-wedged-while-fatal-error-report-pending state=%s: a component's FatalError report has not come back and the Run goroutine stopped making progress", w.col.GetState())
+			} else if d.fatalStuck {
+				out.Linef("viol sig=C20/runloop/fatal-error-report-never-received a component reported StatusFatalError through its host (report returned), the collector sat in the select and never received it: Run has not returned")
 			} else {
 				out.Linef("viol sig=C20/harness/run-goroutine-did-not-reach-expected-point at=%s", d.at)
 			}
@@ -1399,3 +1426,14 @@ func (d *v20Det) osSignal(kind int) {
 	d.emit("ossig "+name, d.stable())
 }
 
+// v20RunParkedInSelect: is the goroutine executing (*Collector).Run parked in its select? (goroutine dump)
+func v20RunParkedInSelect() bool {
+	buf := make([]byte, 1<<20)
+	n := runtime.Stack(buf, true)
+	for _, g := range strings.Split(string(buf[:n]), "\n\n") {
+		if strings.Contains(g, "otelcol.(*Collector).Run(") && !strings.Contains(g, "setupConfigurationComponents") {
+			return strings.HasPrefix(g, "goroutine ") && strings.Contains(g[:strings.Index(g, "\n")+1], "[select")
+		}
+	}
+	return false
+}
